@@ -190,6 +190,9 @@ def finish(ctx: Ctx, replay_fn: Callable[[Ctx, dict], list[Violation]] | None) -
         exit_code = 1
     cov = dict(ctx.coverage)
     cov.setdefault("samples", ctx.samples if ctx.samples else [])
+    if not cov["samples"] and ctx.violations:
+        # every explored behaviour violated early (nothing long enough to sample): the violating inputs are the samples
+        cov["samples"] = [{"violating": json.loads(json.dumps(v.replay, default=repr))} for v in list(ctx.violations.values())[:3]]
     if not cov["samples"]:
         raise HarnessError("check produced no samples")
     ev = {
